@@ -55,6 +55,8 @@ func c15ParseID(h *structures.WritableHeapHeader, id []byte) (off, ln uint64, ok
 
 func c15Run(c *ev.Ctx) {
 	r := c.R
+	zt := r.Fork("zero-tails")
+	zeroTails := zt.Chance(1, 3)
 	blockSize := []uint64{512, 4096, 65536}[r.Intn(3)]
 	if r.Chance(1, 8) {
 		blockSize = []uint64{256, 1024, 16384}[r.Intn(3)]
@@ -306,6 +308,15 @@ func c15Run(c *ev.Ctx) {
 					data[i] = 0x5A
 				}
 			}
+			// ... except, in one heap in three, a tail of 1-4 zero bytes on every second object,
+			// as the encodings of small integers and terminated strings have: nothing may take
+			// the zero tail of a live object for freed space (seeded C10.r8)
+			if zeroTails && n >= 2 && zt.Bool() {
+				for k := 1 + zt.Intn(min(4, n-1)); k > 0; k-- {
+					data[n-k] = 0
+				}
+				c.Count("objects_with_zero_tail", 1)
+			}
 			// snapshot observable state for "a failing insert changes nothing"
 			beforeN, beforeFree, beforeOff := fh.Header.NumManagedObjects, fh.Header.FreeSpace, fh.Header.ManagedSpaceOffset
 			wasIndirect := fh.RootIndirectBlock != nil
@@ -522,7 +533,7 @@ var _ = binary.LittleEndian
 var C15 = &ev.Property{
 	ID:    "C15",
 	Level: "exploration",
-	Rule: "each case is a seeded history of insert / same-size overwrite / wrong-size overwrite / delete / write+load on a WritableFractalHeap with block size 256..65536 and a fill plan (small objects; approach the usable block size ±k; exactly one block; beyond one block; objects around the maximum managed size); " +
+	Rule: "each case is a seeded history of insert / same-size overwrite / wrong-size overwrite / delete / write+load on a WritableFractalHeap with block size 256..65536 and a fill plan (small objects; approach the usable block size ±k; exactly one block; beyond one block; objects around the maximum managed size); payloads have no zero byte, except that in one heap in three every second object ends in 1-4 zero bytes; " +
 		"after every operation all live ids are read back and compared with a map model, ids checked for distinctness and disjoint ranges, NumManagedObjects/FreeSpace compared with the model; write+load is checked through the read-only reader and the writable loader, and half of the time the history continues on the loaded heap. " +
 		"non-trivial: >=2 operations; distinct = (block size, plan, fill region low/tail/indirect, continued after reload, saw a refused insert, ops/10, live/10).",
 	Assumptions: []string{
